@@ -1751,3 +1751,13 @@ M("C17-benign-dotdot-test-not-equal", "C17", "src/dtoolutil/filename.cxx",
   "    } else if (component == \"..\" && !components.empty() &&\n               !(components.back() == \"..\")) {",
   "    } else if (component == \"..\" && !components.empty() &&\n               components.back() != \"..\") {",
   benign=True)
+
+# ---------------------------------------------------------------- R02.10 (seed S7-C02)
+M("C02-blind-extractor-without-const-ok", "C02", "src/interrogate/interfaceMakerPythonNative.cxx",
+  "        if (const_ok && !report_errors) {\n          // This function does the same thing in this case and is slightly",
+  "        if (!report_errors) {\n          // This function does the same thing in this case and is slightly",
+  expect="R02.10|write_function_instance|DtoolInstance_GetPointer#0")
+M("C02-benign-blind-extractor-condition-order", "C02", "src/interrogate/interfaceMakerPythonNative.cxx",
+  "        if (const_ok && !report_errors) {\n          // This function does the same thing in this case and is slightly",
+  "        if (!report_errors && const_ok) {\n          // This function does the same thing in this case and is slightly",
+  benign=True)
